@@ -388,3 +388,247 @@ Lemma rkey_pkey k : nocolon (fst k) -> rkey (pkey k) = k.
 Proof.
   intros H. unfold rkey, pkey. rewrite split_delim_pkey by assumption. now destruct k.
 Qed.
+
+(* ---------------------------------------------------------------------- *)
+(* Part 4: well-formed states and the disk round trip *)
+
+Lemma NoDup_map_inj_in {A B : Type} (f : A -> B) (l : list A) :
+  (forall x y, In x l -> In y l -> f x = f y -> x = y) -> NoDup l -> NoDup (map f l).
+Proof.
+  induction l as [|a l IH]; intros Hf H; cbn; [constructor|].
+  inversion H as [|? ? Ha Hl]; subst. constructor.
+  - intros Hin. apply in_map_iff in Hin. destruct Hin as [y [E Hy]].
+    assert (y = a) by (apply Hf; [now right | now left | assumption]). now subst.
+  - apply IH; [|assumption]. intros x y Hx Hy. apply Hf; now right.
+Qed.
+
+Section RoundTrip.
+  Context {K K' V V' : Type}.
+  Variable keqb : K -> K -> bool.
+  Variable keqb' : K' -> K' -> bool.
+  Hypothesis keq : eqdec keqb.
+  Hypothesis keq' : eqdec keqb'.
+  Variable tr1 : K -> K'.
+  Variable tr2 : K' -> K.
+  Variable g1 : V -> V'.
+  Variable g2 : V' -> V.
+
+  Lemma roundtrip_gen (m : list (K * V)) :
+    NoDup (map fst m) ->
+    (forall k, In k (map fst m) -> tr2 (tr1 k) = k) ->
+    put_all keqb
+      (map (fun e => (tr2 (fst e), g2 (snd e)))
+           (put_all keqb' (map (fun e => (tr1 (fst e), g1 (snd e))) m) [])) []
+    = map (fun e => (fst e, g2 (g1 (snd e)))) m.
+  Proof.
+    intros ND Inv.
+    assert (Inj : forall x y, In x (map fst m) -> In y (map fst m) -> tr1 x = tr1 y -> x = y).
+    { intros x y Hx Hy E. rewrite <- (Inv x Hx), <- (Inv y Hy). now rewrite E. }
+    rewrite (put_all_fresh keqb' keq').
+    - cbn [app]. rewrite map_map. cbn [fst snd].
+      rewrite (put_all_fresh keqb keq).
+      + cbn [app]. apply map_ext_in. intros e He. cbn.
+        rewrite Inv; [reflexivity | now apply in_map].
+      + rewrite map_map. cbn [fst].
+        replace (map (fun x => tr2 (tr1 (fst x))) m) with (map fst m); [assumption|].
+        apply map_ext_in. intros e He. symmetry. apply Inv. now apply in_map.
+      + intros x _ [].
+    - rewrite map_map. cbn [fst].
+      rewrite <- (map_map fst tr1). now apply NoDup_map_inj_in.
+    - intros x _ [].
+  Qed.
+End RoundTrip.
+
+Definition wfm {K V : Type} (P : K -> Prop) (m : list (K * V)) : Prop :=
+  NoDup (map fst m) /\ Forall P (map fst m).
+
+Definition kE_ok (k : key) : Prop := nocolon (fst k).
+Definition kES_ok (ks : key * Z) : Prop := nocolon (fst (fst ks)).
+Definition kC_ok (ck : str * key) : Prop := nocolon (fst (snd ck)).
+Definition kCS_ok (cks : (str * key) * Z) : Prop := nocolon (fst (snd (fst cks))).
+
+(* distinct keys everywhere, and no ':' in any method *)
+Definition wf_state (s : state) : Prop :=
+  wfm kE_ok (sE s) /\ wfm kES_ok (sES s) /\ wfm kC_ok (sC s) /\ wfm kCS_ok (sCS s)
+  /\ NoDup (map fst (sI s)).
+
+(* the effect of a disk round trip: the time fields lose their milliseconds *)
+Definition fl_state (s : state) : state :=
+  {| sE := map (fun e => (fst e, fl (snd e))) (sE s);
+     sES := sES s;
+     sC := map (fun e => (fst e, fl (snd e))) (sC s);
+     sCS := sCS s;
+     sI := map (fun e => (fst e, floor_s (snd e))) (sI s) |}.
+
+Lemma map_id_ext {A : Type} (f : A -> A) (l : list A) :
+  (forall x, f x = x) -> map f l = l.
+Proof. intros H. rewrite <- (map_id l) at 2. now apply map_ext. Qed.
+
+Lemma restore_persist s : wf_state s -> restore (persist s) = fl_state s.
+Proof.
+  intros (HE & HES & HC & HCS & HI).
+  unfold restore, persist, fl_state. cbn [pE pES pC pCS pI]. f_equal.
+  - apply (roundtrip_gen key_eqb str_eqb eqdec_key eqdec_str pkey rkey pval rval);
+      [apply HE|].
+    intros k Hk. apply rkey_pkey. destruct HE as [_ F].
+    rewrite Forall_forall in F. now apply F.
+  - rewrite (roundtrip_gen skey_eqb sz_eqb eqdec_skey eqdec_sz
+               (fun ks => (pkey (fst ks), snd ks)) (fun ks => (rkey (fst ks), snd ks))
+               (fun v : Z => v) (fun v : Z => v)); [| apply HES |].
+    + apply map_id_ext. now intros [k v].
+    + intros [k st] Hk. cbn. rewrite rkey_pkey; [reflexivity|].
+      destruct HES as [_ F]. rewrite Forall_forall in F. now apply (F (k, st)).
+  - apply (roundtrip_gen ckey_eqb key_eqb eqdec_ckey eqdec_key
+             (fun ck => (fst ck, pkey (snd ck))) (fun ck => (fst ck, rkey (snd ck))) pval rval);
+      [apply HC|].
+    intros [c k] Hk. cbn. rewrite rkey_pkey; [reflexivity|].
+    destruct HC as [_ F]. rewrite Forall_forall in F. now apply (F (c, k)).
+  - rewrite (roundtrip_gen cskey_eqb skey_eqb eqdec_cskey eqdec_skey
+               (fun cks => ((fst (fst cks), pkey (snd (fst cks))), snd cks))
+               (fun cks => ((fst (fst cks), rkey (snd (fst cks))), snd cks))
+               (fun v : Z => v) (fun v : Z => v)); [| apply HCS |].
+    + apply map_id_ext. now intros [k v].
+    + intros [[c k] st] Hk. cbn. rewrite rkey_pkey; [reflexivity|].
+      destruct HCS as [_ F]. rewrite Forall_forall in F. now apply (F ((c, k), st)).
+  - rewrite map_map. cbn [fst snd].
+    rewrite (put_all_fresh key_eqb eqdec_key).
+    + reflexivity.
+    + rewrite map_map. cbn [fst]. assumption.
+    + intros x _ [].
+Qed.
+
+(* ---- well-formedness is an invariant of the pipeline ---- *)
+
+Section WfmFacts.
+  Context {K V : Type}.
+  Variable keqb : K -> K -> bool.
+  Variable op : V -> V -> V.
+  Hypothesis keq : eqdec keqb.
+  Variable P : K -> Prop.
+
+  Lemma wfm_of_list l : Forall P (map fst l) -> wfm P (of_list keqb op l).
+  Proof.
+    intros H. split; [now apply NoDup_of_list | now apply Forall_keys_of_list].
+  Qed.
+
+  Lemma wfm_mcombine a b :
+    wfm P a -> Forall P (map fst b) -> wfm P (mcombine keqb op a b).
+  Proof.
+    intros [H1 H2] Hb. split; [now apply NoDup_mcombine | now apply Forall_keys_mcombine].
+  Qed.
+
+  Lemma wfm_rekey f a :
+    (forall k, P k -> P (f k)) -> wfm P a -> wfm P (rekey keqb op f a).
+  Proof.
+    intros Hf [H1 H2]. split; [now apply NoDup_rekey | now apply Forall_keys_rekey].
+  Qed.
+
+  Lemma wfm_map_val (g : V -> V) (m : list (K * V)) :
+    wfm P m -> wfm P (map (fun e => (fst e, g (snd e))) m).
+  Proof. unfold wfm. rewrite map_map. cbn [fst]. tauto. Qed.
+End WfmFacts.
+
+Definition recs_ok (rs : list rec) : Prop := Forall (fun r => nocolon (r_method r)) rs.
+
+Lemma recs_ok_accepted rs : recs_ok rs -> recs_ok (accepted rs).
+Proof.
+  unfold recs_ok, accepted. rewrite !Forall_forall. intros H r Hr.
+  apply filter_In in Hr. now apply H.
+Qed.
+
+Lemma Forall_map_keys {A K V : Type} (P : K -> Prop) (f : A -> K * V) (l : list A) :
+  (forall a, In a l -> P (fst (f a))) -> Forall P (map fst (map f l)).
+Proof.
+  intros H. rewrite map_map. rewrite Forall_forall. intros k Hk.
+  apply in_map_iff in Hk. destruct Hk as [a [<- Ha]]. now apply H.
+Qed.
+
+Lemma wf_extract nxE nxC rs : recs_ok rs -> wf_state (extract nxE nxC rs).
+Proof.
+  intros H. unfold recs_ok in H. rewrite Forall_forall in H.
+  unfold wf_state, extract; cbn [sE sES sC sCS sI].
+  refine (conj _ (conj _ (conj _ (conj _ _)))).
+  - apply wfm_of_list; [exact eqdec_key|].
+    apply Forall_map_keys. intros r Hr. now apply H.
+  - apply wfm_of_list; [exact eqdec_skey|].
+    apply Forall_map_keys. intros r Hr. now apply H.
+  - apply wfm_of_list; [exact eqdec_ckey|].
+    apply Forall_map_keys. intros r Hr. now apply H.
+  - apply wfm_of_list; [exact eqdec_cskey|].
+    apply Forall_map_keys. intros r Hr. now apply H.
+  - apply NoDup_of_list. exact eqdec_key.
+Qed.
+
+Lemma wf_empty : wf_state empty_state.
+Proof. unfold wf_state, wfm; cbn. repeat split; constructor. Qed.
+
+Lemma wf_rekey_state rkE rkC s : wf_state s -> wf_state (rekey_state rkE rkC s).
+Proof.
+  intros (HE & HES & HC & HCS & HI).
+  unfold wf_state, rekey_state; cbn [sE sES sC sCS sI].
+  refine (conj _ (conj _ (conj _ (conj _ _)))); try assumption.
+  - apply wfm_rekey; [exact eqdec_key | now intros [m u] | assumption].
+  - apply wfm_rekey; [exact eqdec_skey | now intros [[m u] st] | assumption].
+  - apply wfm_rekey; [exact eqdec_ckey | now intros [c [m u]] | assumption].
+  - apply wfm_rekey; [exact eqdec_cskey | now intros [[c [m u]] st] | assumption].
+Qed.
+
+Lemma wf_combine_state a b : wf_state a -> wf_state b -> wf_state (combine_state a b).
+Proof.
+  intros (HE & HES & HC & HCS & HI) (HE' & HES' & HC' & HCS' & HI').
+  unfold wf_state, combine_state; cbn [sE sES sC sCS sI].
+  refine (conj _ (conj _ (conj _ (conj _ _)))).
+  - apply wfm_mcombine; [exact eqdec_key | assumption | apply HE'].
+  - apply wfm_mcombine; [exact eqdec_skey | assumption | apply HES'].
+  - apply wfm_mcombine; [exact eqdec_ckey | assumption | apply HC'].
+  - apply wfm_mcombine; [exact eqdec_cskey | assumption | apply HCS'].
+  - apply NoDup_mcombine; [exact eqdec_key | assumption].
+Qed.
+
+Lemma wf_fl_state s : wf_state s -> wf_state (fl_state s).
+Proof.
+  intros (HE & HES & HC & HCS & HI).
+  unfold wf_state, fl_state; cbn [sE sES sC sCS sI].
+  refine (conj _ (conj _ (conj _ (conj _ _)))); try assumption.
+  - now apply wfm_map_val.
+  - now apply wfm_map_val.
+  - rewrite map_map. cbn [fst]. assumption.
+Qed.
+
+(* [step] with the disk round trip replaced by its effect *)
+Definition step' (s : state) (b : batch) : state :=
+  let s0 := if b_restart b then fl_state s else s in
+  match b_recs b with
+  | [] => s0
+  | _ =>
+      let s1 := if b_conv b then rekey_state (b_rkE b) (b_rkC b) s0 else s0 in
+      combine_state s1 (extract (b_nxE b) (b_nxC b) (accepted (b_recs b)))
+  end.
+
+Lemma step_step' s b : wf_state s -> step s b = step' s b.
+Proof.
+  intros H. unfold step, step'. destruct (b_restart b); [|reflexivity].
+  now rewrite restore_persist.
+Qed.
+
+Lemma wf_step' s b : wf_state s -> recs_ok (b_recs b) -> wf_state (step' s b).
+Proof.
+  intros H Hr. unfold step'.
+  assert (H0 : wf_state (if b_restart b then fl_state s else s)).
+  { destruct (b_restart b); [now apply wf_fl_state | assumption]. }
+  destruct (b_recs b) as [|r rs] eqn:E; [assumption|].
+  apply wf_combine_state.
+  - destruct (b_conv b); [now apply wf_rekey_state | assumption].
+  - apply wf_extract. now apply recs_ok_accepted.
+Qed.
+
+Definition batches_ok (bs : list batch) : Prop := Forall (fun b => recs_ok (b_recs b)) bs.
+
+Lemma wf_run_from bs : forall s,
+  wf_state s -> batches_ok bs -> wf_state (run_from s bs).
+Proof.
+  unfold run_from.
+  induction bs as [|b bs IH]; intros s H Hb; cbn; [assumption|].
+  inversion Hb; subst. apply IH; [|assumption].
+  rewrite step_step' by assumption. now apply wf_step'.
+Qed.
